@@ -1,9 +1,15 @@
 (** C17 — the state file codec round-trips every map and rejects damaged input safely.
 
-    Model: [Model/Codec.v] (store.go + benc v1.1.8, byte for byte, with benc's panics
-    and unbacked allocations as explicit outcomes).  Proofs: [Proofs/CodecP1-4.v]. *)
+    Model: [Model/Codec.v] (store.go AS IT IS NOW — the validator [checkEncoding] of commit
+    48482ed in front of benc's decoder, Write through "<path>.tmp" + rename of commit d2d0157 —
+    and benc v1.1.8, byte for byte, with benc's panics and unbacked allocations as explicit
+    outcomes).  Proofs: [Proofs/CodecP1-5.v].
+
+    [go_bytes b] ([blen b <= 6 * (2^48 / 40)], about 42 TB) is the only side condition of the
+    safety theorems: beyond it a count the validator accepts can exceed what [make([]cl.Lock, s)]
+    accepts on linux/amd64 and the faithful model panics there, as the code would. *)
 From Ldlm Require Import Model.Base Model.Codec.
-From Ldlm Require Import Proofs.CodecP1 Proofs.CodecP2 Proofs.CodecP3 Proofs.CodecP4.
+From Ldlm Require Import Proofs.CodecP1 Proofs.CodecP2 Proofs.CodecP3 Proofs.CodecP4 Proofs.CodecP5.
 
 Local Open Scope N_scope.
 
@@ -48,12 +54,47 @@ Theorem C17_rewrite_none : file_read (file_writes fs_new []) = DecOk ∅.
 Proof. exact file_read_new. Qed.
 Print Assumptions C17_rewrite_none.
 
+(** [store.Write] replaces the state file in one step.  Stop a sequence of writes [ws] after
+    any number [k] of its steps (open "<path>.tmp" with O_TRUNC / write + sync / rename): the
+    state file is exactly the file left by the [k / 3] writes that were completed — a complete
+    old or new image, never an empty or partial one. *)
+Theorem C17_atomic : forall (f : fs) (ws : list entries) (k : nat),
+  state_file (foldl fs_step f (take k (all_steps ws)))
+  = state_file (file_writes f (take (k / 3) ws)).
+Proof. exact (fun f ws k => crash_image ws f k). Qed.
+Print Assumptions C17_atomic.
+
+(** ... also when the data write itself is cut short (any bytes [d'] reached the temporary
+    file), and under any steps other than the rename. *)
+Theorem C17_torn : forall (f : fs) (d' : list byte) (ss : list write_step),
+  state_file (foldl fs_step f [WOpenTrunc; WData d']) = state_file f
+  /\ (Forall (fun s => s <> WRename) ss -> state_file (foldl fs_step f ss) = state_file f).
+Proof. exact (fun f d' ss => conj (torn_write_keeps f d') (fs_steps_keep ss f)). Qed.
+Print Assumptions C17_torn.
+
+(** Hence at every instant the state file is the initial image or the complete encoding of one
+    of the maps written, and reads back as that map. *)
+Theorem C17_crash_reads : forall (f : fs) (ws : list entries) (k : nat),
+  Forall wf ws ->
+  let f' := foldl fs_step f (take k (all_steps ws)) in
+  state_file f' = state_file f
+  \/ exists es, es ∈ ws /\ state_file f' = encode es /\ file_read f' = DecOk (to_map es).
+Proof. exact crash_reads. Qed.
+Print Assumptions C17_crash_reads.
+
 (** Every byte string a Go process can hold decodes to a map or to an error — never a
     panic, never an allocation request the input does not back, never "out of fuel". *)
 Theorem C17_safe : forall b : list byte,
   go_bytes b -> (exists m, decode b = DecOk m) \/ (exists e, decode b = DecErr e).
 Proof. exact decode_safe. Qed.
 Print Assumptions C17_safe.
+
+(** [store.Read] on whatever the state file holds (the empty file reads as no locks). *)
+Theorem C17_read_safe : forall f : fs,
+  go_bytes (state_file f) ->
+  (exists m, file_read f = DecOk m) \/ (exists e, file_read f = DecErr e).
+Proof. exact file_read_safe. Qed.
+Print Assumptions C17_read_safe.
 
 (** ... because whatever the validator accepts, benc's decoder decodes. *)
 Theorem C17_validated : forall b : list byte,
@@ -132,3 +173,14 @@ Proof.
   - by vm_compute.
 Qed.
 Print Assumptions C17_example_roundtrip.
+
+(** A longer map, then the empty map, on a fresh file, stopped at every step: empty until the
+    first rename, the first image until the second rename (also while the shorter encoding is
+    sitting in the temporary file), then exactly the 5 bytes of the empty map. *)
+Example C17_example_crash :
+  let at_step k := state_file (foldl fs_step fs_new (take k (all_steps [C17_example; []]))) in
+  at_step 0%nat = [] /\ at_step 2%nat = [] /\ at_step 3%nat = encode C17_example
+  /\ at_step 5%nat = encode C17_example /\ at_step 6%nat = encode []
+  /\ (length (encode []) <? length (encode C17_example))%nat = true.
+Proof. cbv zeta. split_and!; by vm_compute. Qed.
+Print Assumptions C17_example_crash.
